@@ -60,6 +60,9 @@ def specs(tier):
       # "the system reaches quiescence": when nobody can move, every posted event has been dispatched (C04 asks this of the queues with
       # room; here it is asked of the full one, where posts take the no-room path)
       out.append(dict(scenario=SCN, kwargs=kw, kind="deadlock", K=kd, pred="quiescent_lost", timeout=to, replay="posting_replay"))
+    if not kw.get("handler_post") and not kw.get("pending"):
+      # quiescence from an empty queue: no thread can move and an event is still queued (C04 asks the same of its own scenarios)
+      out.append(dict(scenario=SCN, kwargs=kw, kind="deadlock", K=kd, pred="quiescent_lost", timeout=to, replay="posting_replay"))
     if kw["nposters"] == 1:
       out.append(dict(scenario=SCN, kwargs=kw, kind="adequacy", K=kl, timeout=to))
   return out
@@ -83,8 +86,9 @@ def signature(spec, r):
       where, real, r["trace"]), where is not None and tuple(where) != ("Q", "get"))
   if spec.get("pred") == "quiescent_lost":
     lost = bool(real["deque"]) and real["tokens"] == 0
-    return ("quiescent-with-pending-events:full-queue", "all posters returned, the consumer waits; the real queue (capacity %d, full at the start) holds %s with %d wake-up "
-            "tokens, dispatched %s; schedule: %s" % (spec["kwargs"]["capacity"], real["deque"], real["tokens"], real["dispatch_log"], r["trace"]), lost)
+    full = bool(spec["kwargs"].get("handler_post"))
+    return ("quiescent-with-pending-events" + (":full-queue" if full else ""), "all posters returned, the consumer waits; the real queue (capacity %d%s) holds %s with %d wake-up "
+            "tokens, dispatched %s; schedule: %s" % (spec["kwargs"]["capacity"], ", full at the start" if full else "", real["deque"], real["tokens"], real["dispatch_log"], r["trace"]), lost)
   return ("deadlock:poster-blocked",
           "no thread can move and poster(s) %s never returned; real objects: %s; schedule: %s" % (open_posters, real, r["trace"]), bool(open_posters))
 
